@@ -72,8 +72,6 @@ ASSUMPTIONS = [
     "C07_date/timestamp_roundtrip: valid dates of years 1..9999; rest on Proofs/C08.v (iso_seconds, iso_dateonly)",
 ]
 KNOWN_WITNESSES = {
-    "F-C07-3": {"t": "VARCHAR", "kw": {"length": 3}, "col": True, "x": ["s", "abcdef"], "v": ["s", "abcdef"], "r": "native"},
-    "F-C07-4": {"t": "VARCHAR", "kw": {}, "col": True, "x": ["y", ""], "v": ["s", ""], "r": "bytes"},
     "F-C07-5": {"t": "ARRAY", "kw": {"element_type": "INTEGER"}, "col": False, "x": ["s", "[100000000000000000000000000000]"],
                 "v": ["l", [["i", hex(10 ** 29)]]], "r": "json"},
 }
@@ -144,7 +142,28 @@ def _ast_constants(repo):
     rounding = [n.attr for n in ast.walk(call[0]) if isinstance(n, ast.Attribute) and n.attr.startswith("ROUND_")]
     if rounding != ["ROUND_HALF_EVEN"]:
         raise RuntimeError("DecimalFactory.__call__: rounding mode is not ROUND_HALF_EVEN: %r" % rounding)
-    return defaults["scale"], defaults["precision"], mins[0][2], mins[1][2]
+    # FlatColumn.__init__: self.scale = int(<float> * self.precision)
+    ssrc = ast.parse(open(os.path.join(repo, "orso", "schema.py")).read())
+    fc = [n for n in ast.walk(ssrc) if isinstance(n, ast.ClassDef) and n.name == "FlatColumn"]
+    if len(fc) != 1:
+        raise RuntimeError("expected exactly one class FlatColumn in orso/schema.py")
+    init = [n for n in fc[0].body if isinstance(n, ast.FunctionDef) and n.name == "__init__"]
+    if len(init) != 1:
+        raise RuntimeError("FlatColumn.__init__ not found")
+    factors = []
+    for n in ast.walk(init[0]):
+        if isinstance(n, ast.Call) and isinstance(n.func, ast.Name) and n.func.id == "int" and len(n.args) == 1 \
+                and isinstance(n.args[0], ast.BinOp) and isinstance(n.args[0].op, ast.Mult):
+            fs = [a.value for a in (n.args[0].left, n.args[0].right) if isinstance(a, ast.Constant) and type(a.value) is float]
+            if len(fs) == 1:
+                factors.append(fs[0])
+    if len(factors) != 1:
+        raise RuntimeError("FlatColumn.__init__: expected exactly one int(<float literal> * precision), found %r" % factors)
+    from fractions import Fraction
+    fr = Fraction(factors[0])
+    if fr.denominator > 1000 or fr <= 0:
+        raise RuntimeError("FlatColumn.__init__: scale factor %r is not a small positive fraction" % factors[0])
+    return defaults["scale"], defaults["precision"], mins[0][2], mins[1][2], fr.numerator, fr.denominator
 
 
 def gen(repo):
@@ -152,7 +171,7 @@ def gen(repo):
 
     members = list(T.OrsoTypes.__members__.items())
     names = [n for n, _ in members]
-    for n in ["ARRAY", "BLOB", "BOOLEAN", "DATE", "DECIMAL", "DOUBLE", "INTEGER", "TIMESTAMP", "VARCHAR", "NULL"]:
+    for n in ["ARRAY", "BLOB", "BOOLEAN", "DATE", "DECIMAL", "DOUBLE", "INTEGER", "TIMESTAMP", "VARCHAR", "NULL", "_MISSING_TYPE"]:
         if n not in names:
             raise RuntimeError("OrsoTypes member missing: " + n)
     text = "(* GENERATED by tools/props/C07.py gen() from the live orso.types / orso.tools modules and the running interpreter - do not edit *)\n"
@@ -236,12 +255,14 @@ def gen(repo):
         raise RuntimeError("decimal.Context() traps are not the expected defaults: %r" % trapped)
     if ctx.clamp != 0 or ctx.capitals != 1:
         raise RuntimeError("decimal.Context() clamp/capitals are not the expected defaults")
-    ds, dp, pad, cap = _ast_constants(repo)
+    ds, dp, pad, cap, snum, sden = _ast_constants(repo)
     text += "(* decimal.Context(prec=p) defaults *)\n"
     text += "Definition dec_emax : Z := (%d)%%Z.\nDefinition dec_emin : Z := (%d)%%Z.\nDefinition dec_max_prec : Z := (%d)%%Z.\n" % (ctx.Emax, ctx.Emin, decimal.MAX_PREC)
     text += "(* parse_decimal: '<c> if scale is None', '<c> if precision is None'; DecimalFactory.__call__: the two min(scale, <c>) *)\n"
     text += "Definition default_scale : Z := (%d)%%Z.\nDefinition default_precision : Z := (%d)%%Z.\n" % (ds, dp)
     text += "Definition isdigit_pad_cap : Z := (%d)%%Z.\nDefinition safe_scale_cap : Z := (%d)%%Z.\n" % (pad, cap)
+    text += "(* FlatColumn.__init__: a DECIMAL column without precision takes decimal.getcontext().prec, without scale int(<f> * precision); <f> as a fraction *)\n"
+    text += "Definition context_prec : Z := (%d)%%Z.\nDefinition column_scale_num : Z := (%d)%%Z.\nDefinition column_scale_den : Z := (%d)%%Z.\n" % (decimal.getcontext().prec, snum, sden)
     return {"C07_Tables": text}
 
 
@@ -571,8 +592,11 @@ def _expected(case):
     r = case["r"]
     t = case["t"]
     kw = case.get("kw", {})
-    if case.get("col"):
-        kw = dict(kw)  # the column's own length / precision / scale / element type are what the property names
+    if case.get("col") and t == "DECIMAL":
+        # a DECIMAL column without a declared precision / scale has decimal.getcontext().prec and int(0.75 * precision)
+        kw = dict(kw)
+        kw.setdefault("precision", decimal.getcontext().prec)
+        kw.setdefault("scale", int(0.75 * kw["precision"]))
     if v is None:
         return ("eq", None, False)
     if t == "BOOLEAN" and type(v) is bool and r in ("native", "str", "bytes", "word"):
@@ -643,6 +667,10 @@ def oracle(case, obs):
     if xenc is None:
         if obs.get("ok", 0) is not None or "exc" in obs or "ok_class" in obs:
             return "casting None must give None for every type, got %s" % _short({k: obs[k] for k in obs if k in ("ok", "exc", "ok_class")})
+        return None
+    if case.get("col") and t == "_MISSING_TYPE":
+        if obs.get("ok", 0) != obs.get("x", 1):
+            return "an untyped column keeps its default, got %s" % _short({k: obs[k] for k in obs if k in ("ok", "exc", "ok_class")})
         return None
     # a cast returns a value of the type's class or raises
     cls = VALUE_CLASS.get(t)
@@ -718,40 +746,18 @@ def _json_big_int(x):
 
 
 def known(case, obs):
-    """guards of the candidate findings reported in notes/C07.md (each an input class)"""
+    """guard of the known finding F-C07-5 (an input class): JSON array text holding an integer outside 64 bits"""
     if case.get("kind") == "str":
         return None
-    t = case["t"]
-    kw = case.get("kw", {})
-    x = dec(case["x"])
-    if case.get("col") and x is not None:
-        cls = VALUE_CLASS.get(t)
-        # F-C07-4: a falsy default is never cast
-        if cls is not None and not x and type(x) is not cls:
-            return "F-C07-4"
-        # F-C07-3: the cast of a default ignores the column's length / element type
-        if "ok" in obs:
-            got = dec(obs["ok"])
-            n = kw.get("length")
-            if t in ("VARCHAR", "BLOB") and n and n >= 1 and type(got) in (str, bytes) and len(got) > n:
-                return "F-C07-3"
-            et = kw.get("element_type")
-            if t == "ARRAY" and et in VALUE_CLASS and type(got) is list and any(e is not None and type(e) is not VALUE_CLASS[et] for e in got):
-                return "F-C07-3"
-        # ... and its precision / scale: a default with more fractional digits than parse_decimal's own scale is rounded
-        if t == "DECIMAL" and kw.get("scale", 0) > 21:
-            try:
-                d = decimal.Decimal(x.decode("utf-8").strip() if type(x) is bytes else str(x).strip())
-            except (decimal.InvalidOperation, UnicodeError, ValueError):
-                d = None
-            if d is not None and d.is_finite() and -d.as_tuple().exponent > 21:
-                return "F-C07-3"
-    # F-C07-5: orjson reads integers outside 64 bits as floats
-    if t == "ARRAY" and not case.get("col") and _json_big_int(x):
-        return "F-C07-5"
-    if t == "ARRAY" and case.get("col") and _json_big_int(x):
+    if case["t"] == "ARRAY" and _json_big_int(dec(case["x"])):
         return "F-C07-5"
     return None
+
+
+def known_still_fails(fid, witness):
+    """replay the witness of a known finding through the oracle (the guard is not consulted)"""
+    obs = observe(witness)
+    return oracle(witness, obs)
 
 
 # --------------------------------------------------------------------------- Coq literals
@@ -1102,7 +1108,7 @@ def _scalar_case(rng, col=False):
 
 def _wrong_class_case(rng, col=False):
     """any modelled value to any type (class preservation, exceptions)"""
-    t = rng.choice(_SCALARS + ["ARRAY", "STRUCT", "JSONB", "NULL"])
+    t = rng.choice(_SCALARS + ["ARRAY", "STRUCT", "JSONB", "NULL"] + (["_MISSING_TYPE"] if col else []))
     src = rng.choice(_SCALARS)
     x = _typed_value(rng, src)
     r = rng.random()
@@ -1175,8 +1181,7 @@ def corpus():
     # null for every type, both entry points
     for t in ALL_TYPES:
         yield C(t, None, {}, False, None, "native", True)
-        if t != "_MISSING_TYPE":
-            yield C(t, None, {}, True, None, "native", True)
+        yield C(t, None, {}, True, None, "native", True)
     yield C("_MISSING_TYPE", enc(1))
     yield from _bool_cases()
     for v in (True, False):
@@ -1211,16 +1216,35 @@ def corpus():
         yield C("DATE", enc(x))
     yield from _decimal_extra(__import__("random").Random(7))
     yield from _array_odd(__import__("random").Random(8))
-    # FlatColumn(default=...): the candidate findings' neighbours
+    # F-C07-3 (fixed 6cdb3c9): the default is cast with the column's own length / precision / scale / element type
+    yield C("VARCHAR", enc("abcdef"), {"length": 3}, True, enc("abcdef"), "native", True)
+    yield C("BLOB", enc("héllo".encode()), {"length": 2}, True, enc("héllo".encode()), "native", True)
+    yield C("DECIMAL", enc("0.38769749419038365323808"), {"precision": 23, "scale": 23}, True, enc(D("0.38769749419038365323808")), "str", True)
+    yield C("DECIMAL", enc("1.25"), {"precision": 5, "scale": 2}, True, enc(D("1.25")), "str", True)
+    yield C("DECIMAL", enc("1.25"), {}, True, enc(D("1.25")), "str", True)
+    yield C("DECIMAL", enc("1.25"), {"precision": 10}, True, enc(D("1.25")), "str", True)
+    yield C("ARRAY", enc('["2020-01-01"]'), {"element_type": "DATE"}, True, enc([datetime.date(2020, 1, 1)]), "json", True)
+    yield C("ARRAY", enc(["1", "2"]), {"element_type": "INTEGER"}, True)
+    # F-C07-4 (fixed 6cdb3c9): falsy defaults are cast as well
+    yield C("VARCHAR", enc(b""), {}, True, enc(""), "bytes", True)
+    yield C("BLOB", enc(""), {}, True, enc(b""), "str", True)
+    yield C("DOUBLE", enc(0), {}, True)
+    yield C("INTEGER", enc(0.0), {}, True)
+    yield C("INTEGER", enc(False), {}, True)
+    yield C("VARCHAR", enc(0), {}, True)
+    yield C("BOOLEAN", enc(0), {}, True)
+    yield C("DECIMAL", enc(D("0")), {"precision": 5, "scale": 2}, True, enc(D("0")), "native", True)
+    yield C("ARRAY", enc([]), {"element_type": "INTEGER"}, True, enc([]), "native", True)
+    yield C("ARRAY", enc(()), {}, True, enc([]), "tuple", True)
+    # untyped columns keep the default
+    for x in (0, "", "abc", 1.5, b"x", [1], D("1.5")):
+        yield C("_MISSING_TYPE", enc(x), {}, True)
+    yield C("_MISSING_TYPE", enc("abcdef"), {"length": 3}, True)
+    # FlatColumn(default=...): neighbours
     yield C("VARCHAR", enc("abc"), {"length": 3}, True, enc("abc"), "native", True)
-    yield C("VARCHAR", enc("abcdef"), {"length": 3}, True, enc("abcdef"), "native", True)       # F-C07-3
-    yield C("VARCHAR", enc(b""), {}, True, enc(""), "bytes", True)                                # F-C07-4
-    yield C("BLOB", enc(""), {}, True, enc(b""), "str", True)                                     # F-C07-4
     yield C("INTEGER", enc("0"), {}, True, enc(0), "str", True)
     yield C("INTEGER", enc(0), {}, True, enc(0), "native", True)
-    yield C("DOUBLE", enc(0), {}, True)                                                           # F-C07-4
     yield C("INTEGER", enc("x"), {}, True)
-    yield C("ARRAY", enc('["2020-01-01"]'), {"element_type": "DATE"}, True, enc([datetime.date(2020, 1, 1)]), "json", True)   # F-C07-3
     yield C("ARRAY", enc("[100000000000000000000000000000]"), {"element_type": "INTEGER"}, False, enc([10 ** 29]), "json", True)  # F-C07-5
 
 
